@@ -19,6 +19,7 @@ RULES = {
     "R-04.4": "every exception class raised explicitly on a wire path derives from FormError, on a text path from dns.exception.SyntaxError (hierarchy table)",
     "R-04.5": "Parser reads are bounded: get_bytes/seek raise FormError out of bounds and every get_uintN/get_struct unpacks exactly calcsize(format) octets",
     "R-04.6": "every `while` loop on a parse path consumes input (or strictly decreases a measure) on every trip",
+    "R-04.8": "values returned by the parsers can be rendered: the constructor validators that back every encoder-side `assert l < N` / struct width bound the value they return (shared with C05 R-05.5; the per-encoder interval check is C05 R-05.1)",
     "R-04.7": "continue_on_error: failures after the header are recorded with the parser offset and the reader resynchronises; Truncated is raised only on request",
 }
 
@@ -367,6 +368,7 @@ def run(model, rep, tier):
     CONSUMERS = ("get_uint8", "get_uint16", "get_uint32", "get_uint48", "get_bytes", "get_struct", "get_name", "get_counted_bytes", "get_remaining", "_get_char", "get", "get_eol", "get_eol_as_token",
                  "get_string", "get_int", "get_identifier", "readline", "read", "from_wire_parser", "option_from_wire_parser", "popleft", "pop", "skip_whitespace", "parent")
     n_loops = 0
+    n_seeks = 0
     reach = set()
     for key in E.summ:
         reach.add(key.split("@")[0].split("#")[0])
@@ -398,7 +400,32 @@ def run(model, rep, tier):
             r = cfg.reachable(starts, blocked=progress)
             rep.check(head.id not in r, "R-04.6", fq, where(f, lp), f"every trip round `while {src(lp.test)[:40]}` consumes input or advances its counter",
                       f"`while {src(lp.test)[:40]}` can iterate without consuming input or changing its condition: a crafted input makes parsing hang", stmt=stmt_key(lp))
+            # a rewinding seek inside the loop undoes consumption: it needs its own strictly decreasing bound
+            for (sn, sc) in [(n, c) for (n, c) in calls_with_nodes(cfg) if isinstance(c.func, ast.Attribute) and c.func.attr == "seek" and "parser" in src(c.func.value) and c.args
+                             and any(x is c for st_ in lp.body for x in ast.walk(st_))]:
+                n_seeks += 1
+                tgt = src(sc.args[0])
+                bounds = []
+                for t_ in cfg.nodes:
+                    if t_.kind == "test" and isinstance(t_.ast, ast.If):
+                        at = atoms(normalise_compare(t_.ast.test))
+                        if len(at) == 1 and at[0][0] == tgt and at[0][1] == ">=" and at[0][2].isidentifier() and any(isinstance(b_, ast.Raise) for b_ in t_.ast.body):
+                            bounds.append((t_, at[0][2]))
+                okk = False
+                why = f"parser.seek({tgt}) inside `while {src(lp.test)[:30]}` is not preceded by `if {tgt} >= <bound>: raise`"
+                for (t_, bname) in bounds:
+                    if not cfg.edge_dominated(sn.id, {(t_.id, "f")}):
+                        continue
+                    upd = [m.id for m in cfg.nodes if isinstance(m.ast, ast.Assign) and " ".join(src(m.ast).split()) == f"{bname} = {tgt}"]
+                    r2 = cfg.reachable([sn.id], blocked=upd)
+                    if upd and (cfg.dominated_by_set(sn.id, upd) or head.id not in r2):
+                        okk = True
+                        why = f"seek target `{tgt}` must be below `{bname}`, which is lowered to it on every trip: the rewind measure strictly decreases"
+                    else:
+                        why = f"the bound `{bname}` that the rewinding parser.seek({tgt}) is tested against is not lowered to `{tgt}` before the next trip: a pointer cycle makes the loop run forever"
+                rep.check(okk, "R-04.6", fq, where(f, sc), why, why, stmt="rewind-bound")
     rep.floor("R-04.6", n_loops, 12)
+    rep.floor("R-04.6-rewinds", n_seeks, 1)
 
     # ---------------------------------------------------------------- R-04.7
     wr = model.cls("dns.message._WireReader")
@@ -421,6 +448,8 @@ def run(model, rep, tier):
     rep.check(okk, "R-04.7", fw.qualname, where(fw, fw.node), "Truncated is raised only under raise_on_truncation", "Truncated can be raised without raise_on_truncation", stmt="truncated-on-request")
     t = " ".join(src(fw.node).split())
     rep.check("m.errors = reader.errors" in t or "errors" in t, "R-04.7", fw.qualname, where(fw, fw.node), "recorded errors are attached to the returned message", "recorded errors are dropped", stmt="errors-returned")
+    from rules.c05 import check_validators
+    check_validators(model, rep, "R-04.8")
     rep.assume("AttributeError/TypeError from None-dereference or wrong attribute are outside the implicit-raise table (pyright on the pinned tree reports none in the parse zone)")
     rep.assume("third-party idna / hashlib / hmac behave as documented; user callbacks (callable keyring, GSSAPI context) are outside the analysed program")
     rep.meta["explanation"] = (
